@@ -1464,6 +1464,19 @@ func genC11(c *Ctx) {
 			var order []int
 			base := 0
 			for _, g := range sampled {
+				if g.kind == "key" {
+					// always the fixed head of every key packet: version, creation time, algorithm, and for the
+					// curve-based algorithms the OID length and OID (octets 0..15) - a change there that the
+					// reader maps back to the same key (an algorithm id folded into another, a version it
+					// tolerates) must not leave the binding intact
+					for bit := 0; bit < 8*16 && bit < 8*g.n; bit++ {
+						x := base + bit
+						if !picked[x] {
+							picked[x] = true
+							order = append(order, x)
+						}
+					}
+				}
 				for _, h := range g.mpiHdrs {
 					for bit := 0; bit < 16; bit++ {
 						x := base + (h-g.off)*8 + bit
